@@ -161,6 +161,36 @@ def rainflow(peaks, getoffsets=False, use_pandas=True):
     return rf
 
 
+def _unique_kept(y, tol, u):
+    """
+    Find values in `y` that differ from the last *kept* value.
+
+    `u` is ``locate.find_unique(y, tol)``, which compares each value
+    with the previous one. That mask is the same as the one computed
+    here unless a series of "equal" values drifts away from its first
+    value by more than ``stol = abs(tol * abs(diff(y)).max())``, or a
+    value that does differ from the previous one lands within `stol`
+    of the first value of the series it leaves. Both conditions are
+    checked in vectorized fashion; the sequential scan is only done
+    when one of them is met.
+    """
+    stol = abs(tol * abs(np.diff(y)).max())
+    n = y.size
+    # index of the first value of the series each value belongs to:
+    head = np.maximum.accumulate(np.where(u, np.arange(n), 0))
+    k = u.nonzero()[0][1:]
+    if np.all(abs(y - y[head]) <= stol) and np.all(abs(y[k] - y[head[k - 1]]) > stol):
+        return u
+    u = np.zeros(n, bool)
+    u[0] = True
+    last = y[0]
+    for i, yi in enumerate(y.tolist()):
+        if abs(yi - last) > stol:
+            u[i] = True
+            last = yi
+    return u
+
+
 if not HAVE_NUMBA:
 
     def findap(y, tol=1e-6):
@@ -219,6 +249,9 @@ if not HAVE_NUMBA:
         # first, find unique values (1st of series is unique)
         u = locate.find_unique(y, tol)
         # [ True,  True,  True,  True, False,  True, False, False]
+        if not np.all(u):
+            # compare with the last value kept, not the previous value
+            u = _unique_kept(y, tol, u)
 
         # work with unique values only:
         if np.all(u):
